@@ -163,6 +163,7 @@ func TestC17(t *testing.T) {
 	// histories in which the filter's Broker is set or cleared between events: whether a group is sent or dropped
 	// is decided by the Broker configured when it expires / when FlushAll or Close runs
 	r := run.Rand()
+	c17Memory(run, r.Fork())
 	nt := run.N(1500, 60000)
 	for i := 0; i < nt && !run.Stop(); i++ {
 		cr := r.Fork()
